@@ -284,6 +284,16 @@ Fixpoint find_start (t : node) (p : path) : option (node * path) :=
       end
   end.
 
+(* the loop over the 16 nibble children of a branch, ascending or descending; [j] is the index of the head *)
+Section KidsLoop.
+  Context {A : Type} (f : node -> nat -> list A) (bw : bool).
+  Fixpoint kids_loop (l : list node) (j : nat) : list A :=
+    match l with
+    | [] => []
+    | c :: l' => if bw then kids_loop l' (S j) ++ f c j else f c j ++ kids_loop l' (S j)
+    end.
+End KidsLoop.
+
 (* ---------- ordered traversal (billet.go: traverse), leaves only, SPECIFIED behaviour ----------
    [path] is the path of [t], [from] the start point relative to [t] ([] = none).
    Forward: the leaves whose relative path is >= from, ascending.
@@ -309,14 +319,8 @@ Fixpoint traverse (t : node) (pth from : path) (bw : bool) {struct t} : list (pa
       let s := match from with [] => if bw then 15 else 0 | x :: _ => x end in
       let f' := match from with [] => [] | _ :: r => r end in
       let kids :=
-        (fix go (l : list node) (j : nat) {struct l} : list (path * bytes) :=
-           match l with
-           | [] => []
-           | c :: l' =>
-               let here := if (if bw then s <? j else j <? s) then []
-                           else traverse c (pth ++ [j]) (if Nat.eqb j s then f' else []) bw in
-               if bw then go l' (S j) ++ here else here ++ go l' (S j)
-           end) cs 0 in
+        kids_loop (fun c j => if (if bw then s <? j else j <? s) then []
+                              else traverse c (pth ++ [j]) (if Nat.eqb j s then f' else []) bw) bw cs 0 in
       if bw then kids ++ traverse vc pth [] bw
       else match from with [] => traverse vc pth [] bw ++ kids | _ => kids end
   end.
@@ -337,7 +341,7 @@ Definition seek_start (t : node) (prefixP fromP : path) (bw : bool) : option (no
               if is_prefix fromP pth then Some (start, pth, [])
               else
                 let lt := match lex_cmp pth fromP with Lt => true | _ => false end in
-                if Bool.eqb lt bw then Some (start, pth, []) else None        (* SPECIFIED; Go has == for != : finding F13 *)
+                if Bool.eqb lt bw then Some (start, pth, []) else None        (* SPECIFIED; Go has == for != : finding F25 *)
           end
       end
   end.
@@ -386,6 +390,128 @@ Definition var_bytes (b : bytes) : bytes := var_uint (N.of_nat (length b)) ++ b.
 Definition max_path_len : N := 136.       (* maxPathLength = (MaxStorageKeyLen + 4) * 2 *)
 Definition max_key_len : N := 68.         (* MaxKeyLength *)
 Definition max_value_len : N := 65539.    (* MaxValueLength = 3 + MaxStorageValueLen + 1 *)
+
+(* ---------- decoding (DecodeNodeWithType) ---------- *)
+
+Definition take (n : nat) (bs : bytes) : option (bytes * bytes) :=
+  if length bs <? n then None else Some (firstn n bs, skipn n bs).
+
+Fixpoint from_le (l : bytes) : N := match l with [] => 0%N | b :: t => (b + 256 * from_le t)%N end.
+
+(* BinReader.ReadVarUint: no minimality check *)
+Definition read_var_uint (bs : bytes) : option (N * bytes) :=
+  match bs with
+  | [] => None
+  | b :: r =>
+      let wide (n : nat) := match take n r with Some (x, r') => Some (from_le x, r') | None => None end in
+      if (b =? 253)%N then wide 2
+      else if (b =? 254)%N then wide 4
+      else if (b =? 255)%N then wide 8
+      else Some (b, r)
+  end.
+
+(* n nodes in sequence, each decoded by [dec] *)
+Section DecodeKids.
+  Variable dec : bytes -> option (node * bytes).
+  Fixpoint decode_kids (n : nat) (r : bytes) : option (list node * bytes) :=
+    match n with
+    | O => Some ([], r)
+    | S n' =>
+        match dec r with
+        | Some (c, r') => match decode_kids n' r' with Some (cs, r'') => Some (c :: cs, r'') | None => None end
+        | None => None
+        end
+    end.
+End DecodeKids.
+
+(* fuel: one unit per nested node; S (length bs) always suffices.  Inline children are accepted, as in Go *)
+Fixpoint decode (fuel : nat) (depth : N) (bs : bytes) : option (node * bytes) :=
+  match fuel with
+  | O => None
+  | S f =>
+      if (max_path_len <? depth)%N then None                                (* errTooManyNodes *)
+      else
+        match bs with
+        | [] => None
+        | ty :: r =>
+            if (ty =? 0)%N then
+              match decode_kids (decode f (depth + 1)%N) 17 r with
+              | Some (cs, r') => Some (Branch (firstn 16 cs) (nth 16 cs Empty), r')
+              | None => None
+              end
+            else if (ty =? 1)%N then
+              match read_var_uint r with
+              | Some (sz, r1) =>
+                  if (max_path_len <? sz)%N then None
+                  else match take (N.to_nat sz) r1 with
+                       | Some (k, r2) =>
+                           match decode f (depth + 1)%N r2 with
+                           | Some (n, r3) => Some (Ext (map N.to_nat k) n, r3)
+                           | None => None
+                           end
+                       | None => None
+                       end
+              | None => None
+              end
+            else if (ty =? 2)%N then
+              match read_var_uint r with
+              | Some (sz, r1) =>
+                  if (max_value_len <? sz)%N then None
+                  else match take (N.to_nat sz) r1 with
+                       | Some (v, r2) => Some (Leaf v, r2)
+                       | None => None
+                       end
+              | None => None
+              end
+            else if (ty =? 3)%N then
+              match take 32 r with Some (h, r1) => Some (HashRef h, r1) | None => None end
+            else if (ty =? 4)%N then Some (Empty, r)
+            else None
+        end
+  end.
+
+Fixpoint bytes_eqb (a b : bytes) : bool :=
+  match a, b with
+  | [], [] => true
+  | x :: a', y :: b' => (x =? y)%N && bytes_eqb a' b'
+  | _, _ => false
+  end.
+
+
+(* ---------- a node store: hash |-> serialised node; the first matching entry counts ---------- *)
+
+Definition store := list (bytes * bytes).
+
+Definition store_lookup (st : store) (h : bytes) : option bytes :=
+  match find (fun e => bytes_eqb (fst e) h) st with Some e => Some (snd e) | None => None end.
+
+(* getFromStore: fetch, decode (trailing bytes ignored).  SPECIFIED: a stored hash node or empty node is an
+   error (the unchanged Go code recurses forever / panics there: finding F26) *)
+Definition store_get (st : store) (h : bytes) : option node :=
+  match store_lookup st h with
+  | Some bs =>
+      match decode (S (length bs)) 0 bs with
+      | Some (Empty, _) => None
+      | Some (HashRef _, _) => None
+      | Some (n, _) => Some n
+      | None => None
+      end
+  | None => None
+  end.
+
+(* getWithPath (strict) through a store *)
+Fixpoint walk (fuel : nat) (st : store) (t : node) (p : path) : option bytes :=
+  match fuel with
+  | O => None
+  | S f =>
+      match t with
+      | Leaf v => match p with [] => Some v | _ => None end
+      | Branch cs vc => match p with [] => walk f st vc [] | i :: r => walk f st (nth i cs Empty) r end
+      | Ext k n => match strip k p with Some r => walk f st n r | None => None end
+      | HashRef h => match store_get st h with Some n => walk f st n p | None => None end
+      | Empty => None
+      end
+  end.
 
 Section Hashing.
   Variable H : bytes -> bytes.
@@ -454,119 +580,10 @@ Section Hashing.
     | HashRef _ => None
     end.
 
-  (* ---------- decoding (DecodeNodeWithType) ---------- *)
-
-  Definition take (n : nat) (bs : bytes) : option (bytes * bytes) :=
-    if length bs <? n then None else Some (firstn n bs, skipn n bs).
-
-  Fixpoint from_le (l : bytes) : N := match l with [] => 0%N | b :: t => (b + 256 * from_le t)%N end.
-
-  (* BinReader.ReadVarUint: no minimality check *)
-  Definition read_var_uint (bs : bytes) : option (N * bytes) :=
-    match bs with
-    | [] => None
-    | b :: r =>
-        let wide (n : nat) := match take n r with Some (x, r') => Some (from_le x, r') | None => None end in
-        if (b =? 253)%N then wide 2
-        else if (b =? 254)%N then wide 4
-        else if (b =? 255)%N then wide 8
-        else Some (b, r)
-    end.
-
-  (* fuel: one unit per nested node; S (length bs) always suffices.  Inline children are accepted, as in Go *)
-  Fixpoint decode (fuel : nat) (depth : N) (bs : bytes) : option (node * bytes) :=
-    match fuel with
-    | O => None
-    | S f =>
-        if (max_path_len <? depth)%N then None                                (* errTooManyNodes *)
-        else
-          match bs with
-          | [] => None
-          | ty :: r =>
-              if (ty =? 0)%N then
-                match (fix kids (n : nat) (r : bytes) {struct n} : option (list node * bytes) :=
-                         match n with
-                         | O => Some ([], r)
-                         | S n' =>
-                             match decode f (depth + 1)%N r with
-                             | Some (c, r') =>
-                                 match kids n' r' with Some (cs, r'') => Some (c :: cs, r'') | None => None end
-                             | None => None
-                             end
-                         end) 17 r with
-                | Some (cs, r') => Some (Branch (firstn 16 cs) (nth 16 cs Empty), r')
-                | None => None
-                end
-              else if (ty =? 1)%N then
-                match read_var_uint r with
-                | Some (sz, r1) =>
-                    if (max_path_len <? sz)%N then None
-                    else match take (N.to_nat sz) r1 with
-                         | Some (k, r2) =>
-                             match decode f (depth + 1)%N r2 with
-                             | Some (n, r3) => Some (Ext (map N.to_nat k) n, r3)
-                             | None => None
-                             end
-                         | None => None
-                         end
-                | None => None
-                end
-              else if (ty =? 2)%N then
-                match read_var_uint r with
-                | Some (sz, r1) =>
-                    if (max_value_len <? sz)%N then None
-                    else match take (N.to_nat sz) r1 with
-                         | Some (v, r2) => Some (Leaf v, r2)
-                         | None => None
-                         end
-                | None => None
-                end
-              else if (ty =? 3)%N then
-                match take 32 r with Some (h, r1) => Some (HashRef h, r1) | None => None end
-              else if (ty =? 4)%N then Some (Empty, r)
-              else None
-          end
-    end.
-
-  Fixpoint bytes_eqb (a b : bytes) : bool :=
-    match a, b with
-    | [], [] => true
-    | x :: a', y :: b' => (x =? y)%N && bytes_eqb a' b'
-    | _, _ => false
-    end.
-
-  (* a store filled with the given byte strings under their hashes (later entries overwrite earlier ones);
-     getFromStore: fetch, decode (trailing bytes ignored).  SPECIFIED: a stored hash node or empty node is
-     an error (the unchanged Go code recurses forever / panics there: finding F14) *)
-  Definition store_get (store : list bytes) (h : bytes) : option node :=
-    match find (fun bs => bytes_eqb (H (H bs)) h) (rev store) with
-    | Some bs =>
-        match decode (S (length bs)) 0 bs with
-        | Some (Empty, _) => None
-        | Some (HashRef _, _) => None
-        | Some (n, _) => Some n
-        | None => None
-        end
-    | None => None
-    end.
-
-  (* getWithPath (strict) through a store *)
-  Fixpoint walk (fuel : nat) (store : list bytes) (t : node) (p : path) : option bytes :=
-    match fuel with
-    | O => None
-    | S f =>
-        match t with
-        | Leaf v => match p with [] => Some v | _ => None end
-        | Branch cs vc => match p with [] => walk f store vc [] | i :: r => walk f store (nth i cs Empty) r end
-        | Ext k n => match strip k p with Some r => walk f store n r | None => None end
-        | HashRef h => match store_get store h with Some n => walk f store n p | None => None end
-        | Empty => None
-        end
-    end.
-
-  (* mpt.VerifyProof *)
+  (* mpt.VerifyProof: a store filled with the given byte strings under their hashes, then getWithPath *)
+  Definition store_of (proofs : list bytes) : store := rev (map (fun bs => (H (H bs), bs)) proofs).
   Definition verify_proof (rh : bytes) (p : path) (proofs : list bytes) : option bytes :=
-    walk (2 * (length p + length proofs) + 4) proofs (HashRef rh) p.
+    walk (2 * (length p + length proofs + length (concat proofs)) + 4) (store_of proofs) (HashRef rh) p.
 End Hashing.
 
 (* ---------- PutBatch (batch.go), on a key-sorted duplicate-free list; None as value = deletion ---------- *)
@@ -585,20 +602,25 @@ Definition lcp_many (kv : kvs) : path :=
   end.
 Definition strip_prefix (n : nat) (kv : kvs) : kvs := map (fun e => (skipn n (fst e), snd e)) kv.
 
-(* iterateBatch's grouping by first nibble; the empty key (always first) goes to index 16 *)
-Fixpoint groups (kv : kvs) : list (nat * kvs) :=
+(* iterateBatch walks over the runs of entries with the same first nibble (the empty key, always first in a
+   sorted batch, is the run of index 16).  Since the batch is sorted and the children are independent, the loop
+   is "every child receives the entries that start with its nibble": *)
+Fixpoint sub_kv (c : nat) (kv : kvs) : kvs :=            (* the run for child c, first nibble stripped *)
   match kv with
   | [] => []
-  | (k, v) :: kv' =>
-      match k with
-      | [] => (16, [([], v)]) :: groups kv'
-      | c :: k' =>
-          match groups kv' with
-          | (c', g) :: gs => if Nat.eqb c' c then (c, (k', v) :: g) :: gs else (c, [(k', v)]) :: (c', g) :: gs
-          | [] => [(c, [(k', v)])]
-          end
-      end
+  | (x :: k', ov) :: r => if Nat.eqb x c then (k', ov) :: sub_kv c r else sub_kv c r
+  | ([], _) :: r => sub_kv c r
   end.
+Fixpoint emp_kv (kv : kvs) : kvs :=                      (* the run for the value child *)
+  match kv with
+  | [] => []
+  | ([], ov) :: r => ([], ov) :: emp_kv r
+  | _ :: r => emp_kv r
+  end.
+Fixpoint mapi (j : nat) (f : nat -> node -> node) (l : list node) : list node :=
+  match l with [] => [] | c :: l' => f j c :: mapi (S j) f l' end.
+Fixpoint maxlen (kv : kvs) : nat :=
+  match kv with [] => 0 | e :: r => Nat.max (length (fst e)) (maxlen r) end.
 
 (* mergeExtension *)
 Definition merge_ext (prefix : path) (sub : node) : node :=
@@ -619,15 +641,11 @@ Definition strip_branch (cs : list node) (vc : node) : node :=
 Section Batch.
   Variable rec : node -> kvs -> node.     (* putBatchIntoNode one level down *)
 
+  Definition on_kv (kv : kvs) (c : node) : node := match kv with [] => c | _ => rec c kv end.
+
   (* addToBranch: iterateBatch then stripBranch *)
   Definition add_to_branch (cs : list node) (vc : node) (kv : kvs) : node :=
-    let '(cs', vc') :=
-      fold_left (fun (b : list node * node) (g : nat * kvs) =>
-                   let '(cs, vc) := b in
-                   if Nat.eqb (fst g) 16 then (cs, rec vc (snd g))
-                   else (upd (fst g) (rec (nth (fst g) cs Empty) (snd g)) cs, vc))
-                (groups kv) (cs, vc) in
-    strip_branch cs' vc'.
+    strip_branch (mapi 0 (fun c child => on_kv (sub_kv c kv) child) cs) (on_kv (emp_kv kv) vc).
 
   (* newSubTrieMany *)
   Definition new_sub_many (prefix : path) (kv : kvs) (value : option bytes) : node :=
@@ -650,6 +668,7 @@ Section Batch.
     end.
 End Batch.
 
+(* fuel: one unit per nibble of the longest key, plus two *)
 Fixpoint put_batch_node (fuel : nat) (t : node) (kv : kvs) : node :=
   match fuel with
   | O => t
@@ -677,17 +696,18 @@ Fixpoint put_batch_node (fuel : nat) (t : node) (kv : kvs) : node :=
 Definition put_batch (t : node) (kv : kvs) : node :=
   match kv with
   | [] => t
-  | _ => put_batch_node (4 * fold_left (fun m e => Nat.max m (length (fst e))) kv 0 + 8) t kv
+  | _ => put_batch_node (maxlen kv + 2) t kv
   end.
 
-(* ---------- normal form (doc.go: the three invariants; the value child is a leaf or empty) ---------- *)
+(* ---------- normal form (doc.go: the three invariants; the value child is a leaf or empty;
+   extension keys consist of nibbles) ---------- *)
 
 Definition leaf_or_branch (t : node) : Prop := match t with Leaf _ | Branch _ _ => True | _ => False end.
 Definition vc_ok (t : node) : Prop := match t with Empty | Leaf _ => True | _ => False end.
 
 Inductive NFne : node -> Prop :=
 | NF_leaf v : NFne (Leaf v)
-| NF_ext k n : k <> [] -> NFne n -> leaf_or_branch n -> NFne (Ext k n)
+| NF_ext k n : k <> [] -> path_ok k -> NFne n -> leaf_or_branch n -> NFne (Ext k n)
 | NF_branch cs vc :
     length cs = 16 -> Forall (fun c => c = Empty \/ NFne c) cs -> vc_ok vc ->
     2 <= ne_count (cs ++ [vc]) -> NFne (Branch cs vc).
@@ -697,7 +717,7 @@ Definition NF (t : node) : Prop := t = Empty \/ NFne t.
 Fixpoint NFneb (t : node) : bool :=
   match t with
   | Leaf _ => true
-  | Ext k n => negb (match k with [] => true | _ => false end) && NFneb n &&
+  | Ext k n => negb (match k with [] => true | _ => false end) && path_okb k && NFneb n &&
                match n with Leaf _ | Branch _ _ => true | _ => false end
   | Branch cs vc =>
       Nat.eqb (length cs) 16 && forallb (fun c => is_empty c || NFneb c) cs &&
